@@ -1,5 +1,6 @@
 import ScrapliModel.Lemmas.Decode
 import ScrapliModel.Lemmas.Framed
+import ScrapliModel.Props.C08
 /-!
 # C02 — NETCONF replies decode to exactly the payload, or are explicitly failed
 
@@ -29,13 +30,13 @@ theorem legal_fits {cs : List Bytes} (h : LegalChunks cs) :
 /-- RFC 6242 round trip, raw level: every legal chunking of any payload (any bytes, any number of
 chunks, any chunk sizes of up to `maxChunkSizeCharLen` digits), padded by any whitespace, decodes
 to exactly the concatenation of the chunk data. -/
-theorem decode11Raw_frame11 (cs : List Bytes) (ws1 ws2 : Bytes) (hcs : LegalChunks cs)
+theorem decode11Raw_body (cs : List Bytes) (ws1 ws2 : Bytes) (hcs : LegalChunks cs)
     (h1 : AllSpace ws1) (h2 : AllSpace ws2) :
-    decode11Raw (ws1 ++ frame11 cs ++ ws2) = .ok cs.flatten := by
+    decode11Raw (ws1 ++ ((cs.map chunk).flatten ++ [LF, HASH, HASH]) ++ ws2) = .ok cs.flatten := by
   -- the trimmed text is `#…\n##`
-  have hshape : ∃ m, ws1 ++ frame11 cs ++ ws2 = (ws1 ++ [LF]) ++ (HASH :: (m ++ [HASH])) ++ (LF :: ws2)
+  have hshape : ∃ m, ws1 ++ ((cs.map chunk).flatten ++ [LF, HASH, HASH]) ++ ws2
+        = (ws1 ++ [LF]) ++ (HASH :: (m ++ [HASH])) ++ ws2
       ∧ (cs.map chunk).flatten ++ [LF, HASH, HASH] = LF :: HASH :: (m ++ [HASH]) := by
-    unfold frame11
     cases cs with
     | nil => exact ⟨[], by simp, by simp⟩
     | cons c cs' =>
@@ -49,17 +50,10 @@ theorem decode11Raw_frame11 (cs : List Bytes) (ws1 ws2 : Bytes) (hcs : LegalChun
     rcases hb with hb | hb
     · exact h1 b hb
     · subst hb; decide
-  have hsp2 : ∀ b ∈ LF :: ws2, isSpaceB b = true := by
-    intro b hb
-    simp only [List.mem_cons] at hb
-    rcases hb with hb | hb
-    · subst hb; decide
-    · exact h2 b hb
-  have htrim := trimSpace_padded (ws1 ++ [LF]) (LF :: ws2) m HASH HASH hsp1 hsp2 (by decide) (by decide)
+  have htrim := trimSpace_padded (ws1 ++ [LF]) ws2 m HASH HASH hsp1 h2 (by decide) (by decide)
   unfold decode11Raw
   rw [hm, htrim]
   simp only [bne_self_eq_false, Bool.false_eq_true, if_false]
-  -- drop the leading LF that trimming removed: the loop skips LFs anyway
   have hloop := decodeLoop_frame Gen.Response.maxChunkSizeCharLen maxHdr_pos cs
     ((HASH :: (m ++ [HASH])).length + 2) [] [] (legal_fits hcs) (by
       have hl := frame_body_length cs
@@ -69,7 +63,6 @@ theorem decode11Raw_frame11 (cs : List Bytes) (ws1 ws2 : Bytes) (hcs : LegalChun
       omega)
   have hb' : (cs.map chunk).flatten ++ [LF, HASH, HASH] = (cs.map chunk).flatten ++ LF :: HASH :: HASH :: [] := rfl
   rw [← hb', hbody] at hloop
-  -- one step of fuel is spent on the LF
   have hstep : decodeLoop Gen.Response.maxChunkSizeCharLen ((HASH :: (m ++ [HASH])).length + 2)
       (LF :: HASH :: (m ++ [HASH])) [] =
       decodeLoop Gen.Response.maxChunkSizeCharLen ((HASH :: (m ++ [HASH])).length + 1) (HASH :: (m ++ [HASH])) [] := by
@@ -77,6 +70,23 @@ theorem decode11Raw_frame11 (cs : List Bytes) (ws1 ws2 : Bytes) (hcs : LegalChun
     simp [decodeLoop, LF]
   rw [hstep] at hloop
   simpa using hloop
+
+/-- RFC 6242 round trip, raw level: every legal chunking of any payload (any bytes, any number of
+chunks, any chunk sizes of up to `maxChunkSizeCharLen` digits), padded by any whitespace, decodes
+to exactly the concatenation of the chunk data. -/
+theorem decode11Raw_frame11 (cs : List Bytes) (ws1 ws2 : Bytes) (hcs : LegalChunks cs)
+    (h1 : AllSpace ws1) (h2 : AllSpace ws2) :
+    decode11Raw (ws1 ++ frame11 cs ++ ws2) = .ok cs.flatten := by
+  have hsp2 : AllSpace (LF :: ws2) := by
+    intro b hb
+    simp only [List.mem_cons] at hb
+    rcases hb with hb | hb
+    · subst hb; decide
+    · exact h2 b hb
+  have := decode11Raw_body cs ws1 (LF :: ws2) hcs h1 hsp2
+  have e : ws1 ++ frame11 cs ++ ws2 = ws1 ++ ((cs.map chunk).flatten ++ [LF, HASH, HASH]) ++ (LF :: ws2) := by
+    simp [frame11]
+  rw [e]; exact this
 
 /-- The property's success clause for NETCONF 1.1: the result is exactly the reply payload with the
 XML declaration and surrounding whitespace trimmed, for every chunking and padding. -/
@@ -287,5 +297,66 @@ theorem failed_only_if (mk : List Bytes) (v : Version) (raw : Bytes)
     simp only at h ⊢
     split at h <;> rename_i heq <;> simp [heq] at h ⊢
     exact h
+
+/-! ## the read-loop clause: "for every way its bytes are split into transport reads"
+
+Composition with the session read-loop model of C08 (`Netconf/Store.lean`, mirroring
+`driver/netconf/read.go`): whatever interleaving of calls, read-loop iterations and polls, and
+however the server's bytes are cut into reads, a NETCONF 1.1 call that returns a message returns
+bytes that decode to exactly the payload of the reply addressed to it. The hypotheses are C08's
+(`Delivery.valid`: no line `##` inside the framed bytes before the real end marker — known finding
+F2 —, the message-id attribute contiguous — F13 —, no `</rpc>` text in a reply) plus: the server
+framed each reply as a legal RFC 6242 chunk stream. -/
+
+open Scrapli.Netconf.Store in
+theorem session_reply_decodes (evs : List Store.Ev) (ds : List Store.Delivery) (later : List Bytes)
+    (hv : ∀ d ∈ ds, d.valid .v11 = true)
+    (hreads : Store.readsOf evs ++ later = Scrapli.Netconf.C08.chunksOf ds)
+    (hframed : ∀ r ∈ Scrapli.Netconf.C08.repliesOf ds, ∃ cs, LegalChunks cs ∧
+      r.body = (cs.map chunk).flatten ++ [LF, HASH, HASH])
+    (id : Nat) (m : Bytes) (h : (id, some m) ∈ (Store.run .v11 Store.init evs).results) :
+    ∃ r cs, r ∈ Scrapli.Netconf.C08.repliesOf ds ∧ r.to = id ∧ LegalChunks cs ∧
+      r.body = (cs.map chunk).flatten ++ [LF, HASH, HASH] ∧
+      decode11 m = .ok (finish cs.flatten) := by
+  rcases Scrapli.Netconf.C08.fetch_returns_own .v11 evs ds later hv hreads id (some m) h with h0 | ⟨m', r, hm, hr, hto, lf, j, hlf, hmr⟩
+  · simp at h0
+  · simp only [Option.some.injEq] at hm
+    subst hm
+    obtain ⟨cs, hcs, hbody⟩ := hframed r hr
+    -- the reply's tail is line feeds only (C08's validity), so is any prefix of it
+    have htail : AllSpace (r.tail.take j) := by
+      simp only [Scrapli.Netconf.C08.repliesOf, List.mem_flatMap] at hr
+      obtain ⟨d, hd, hrd⟩ := hr
+      have hg := hv d hd
+      simp only [Store.Delivery.valid, Bool.and_eq_true] at hg
+      have hgood := hg.1.1
+      have hgr : Store.goodReply .v11 r = true := by
+        cases hb : d.burst with
+        | echoOnly e => rw [hb] at hrd; simp [Store.Burst.replies] at hrd
+        | replyOnly r' =>
+          rw [hb] at hrd hgood
+          simp only [Store.Burst.replies, List.mem_singleton] at hrd
+          subst hrd; simpa [Store.Burst.good] using hgood
+        | echoReply e r' =>
+          rw [hb] at hrd hgood
+          simp only [Store.Burst.replies, List.mem_singleton] at hrd
+          subst hrd
+          simp only [Store.Burst.good, Bool.and_eq_true] at hgood
+          exact hgood.2
+      simp only [Store.goodReply, Bool.and_eq_true] at hgr
+      have hall : Store.allLF r.tail = true := hgr.1.1.1.1.1.1
+      intro b hb
+      have hb' : b ∈ r.tail := List.mem_of_mem_take hb
+      simp only [Store.allLF, List.all_eq_true, beq_iff_eq] at hall
+      rw [hall b hb']; decide
+    have hlfs : AllSpace lf := by
+      intro b hb
+      simp only [Store.allLF, List.all_eq_true, beq_iff_eq] at hlf
+      rw [hlf b hb]; decide
+    refine ⟨r, cs, hr, hto, hcs, hbody, ?_⟩
+    rw [hmr, hbody]
+    unfold decode11
+    rw [decode11Raw_body cs lf (r.tail.take j) hcs hlfs htail]
+    rfl
 
 end Scrapli.Netconf.C02
